@@ -25,6 +25,22 @@ def main():
     if sh(["git", "-C", REPO, "status", "--porcelain", "--untracked-files=no"]).stdout.strip():
         print("refusing: /repo has uncommitted changes")
         return 2
+    # evidence files describe runs on the unchanged tree: keep them out of the seeded runs
+    import shutil, tempfile
+    evdir = os.path.join(ROOT, "evidence")
+    backup = tempfile.mkdtemp(prefix="evidence_backup_", dir=os.path.join(ROOT, "work"))
+    shutil.copytree(evdir, os.path.join(backup, "evidence"))
+    try:
+        _run(ids, a, sd, allchecks, results)
+    finally:
+        shutil.rmtree(evdir)
+        shutil.copytree(os.path.join(backup, "evidence"), evdir)
+        shutil.rmtree(backup)
+    json.dump(results, open(resfile, "w"), indent=1, sort_keys=True)
+    return 0
+
+
+def _run(ids, a, sd, allchecks, results):
     for i in ids:
         meta = json.load(open(os.path.join(sd, i, "meta.json")))
         patch = os.path.join(sd, i, "patch.diff")
@@ -48,9 +64,6 @@ def main():
         finally:
             sh(["git", "-C", REPO, "checkout", "--", "."])
             sh([sys.executable, os.path.join(ROOT, "tools", "translate.py")])   # regenerate the tables from the restored tree
-    json.dump(results, open(resfile, "w"), indent=1, sort_keys=True)
-    # leave the tree clean and the caches rebuilt against the unchanged code
-    return 0
 
 
 if __name__ == "__main__":
